@@ -46,6 +46,12 @@ type e2eHistory struct {
 	T0        uint32      `json:"t0"`
 	BlockOnly bool        `json:"first_rotation_block_only"` // first rotation closes the metrics BLOCK but keeps the segment open
 	AgedTree  bool        `json:"first_rotation_by_size_with_tags_tree_older_than_24h,omitempty"` // size-based segment rotation that also moves the tags tree holder
+	// race stream (race.go): Rot[i] = the rotation that follows phase i and lands between the two steps of a selector query;
+	// Late[i] = the datapoints of phase i+1 are accepted after that rotation and before the query is executed
+	Rot  []string `json:"rotation_during_query_after_phase,omitempty"`
+	Late []bool   `json:"next_phase_ingested_before_query_executes,omitempty"`
+	// TreeFlush[i] = the periodic tags-tree flush (timeBasedTagsTreeFlush) happens after phase i, before the raced query
+	TreeFlush []bool `json:"tags_tree_flushed_after_phase,omitempty"`
 }
 
 // observation: per stage, per series index, the points returned by a selector query
@@ -249,6 +255,8 @@ func workerMain(args []string) {
 		for i := 0; i < 4; i++ {
 			out = append(out, queryAll(h, "rotated2"))
 		}
+	case "racerun":
+		out = raceRun(h, fail)
 	case "walrun":
 		// ingest, rotate the BLOCK (the segment stays open), ingest more, let the WAL buffer reach its file, die
 		if e := ingest(h, 0); len(e) > 0 {
@@ -641,4 +649,5 @@ func e2ePart(cfg vhlib.Config, sum *vhlib.Summary, r *vhlib.Rng) {
 		}
 		_ = os.RemoveAll(data)
 	}
+	racePart(cfg, sum, r.Fork()) // after the older streams, so that their histories stay the same for a given seed
 }
